@@ -90,7 +90,10 @@ def run_history(case: dict[str, Any]) -> dict[str, Any]:
         hist = [["world", "refuse"], ["start"], ["run", 0.5], ["stop"], ["world", "ok"], ["rename"]] + list(hist)
     out: dict[str, Any] = {}
     with Sim() as sim, mdns.MdnsPatch(sim) as world, clientlog.Recording(sim) as log:
-        cfg = DeviceConfig(reply_delay=0.01, name="dev")
+        HOST = var.get("host", "dev")      # the device's node name = the first label of its .local host name
+        cfg = DeviceConfig(reply_delay=0.01, name=HOST)
+        if "api_minor" in var:
+            cfg.api_minor = int(var["api_minor"])       # (firmware newer / older than the client)
         dev = sim.device(cfg, addresses=("10.0.0.1",), delay=0.001)
         base_policy = sim.net.connect_policy
         state = {"world": "ok"}
@@ -119,8 +122,8 @@ def run_history(case: dict[str, Any]) -> dict[str, Any]:
             elif w == "needs-encryption":
                 cfg.handlers["HelloRequest"] = lambda c, m: c.send_raw(b"\x01\x00\x00")
             if var["addr"] == "local":
-                world.answers["dev"] = "none" if w == "dns-fail" else {"v4": ["10.0.0.1"]}
-                sim.net.dns["dev.local"] = socket.gaierror(socket.EAI_NONAME, "Name or service not known")
+                world.answers[HOST] = "none" if w == "dns-fail" else {"v4": ["10.0.0.1"]}
+                sim.net.dns[f"{HOST}.local"] = socket.gaierror(socket.EAI_NONAME, "Name or service not known")
             else:
                 sim.net.dns["dev.example.com"] = socket.gaierror(socket.EAI_NONAME, "x") if w == "dns-fail" else ["10.0.0.1"]
 
@@ -132,7 +135,7 @@ def run_history(case: dict[str, Any]) -> dict[str, Any]:
         if var["zc"] == "supplied":
             supplied = world.supplied_async()
             kw["zeroconf_instance"] = supplied
-        address = {"local": "dev.local", "ip": "dev.example.com", "literal": "10.0.0.1"}[var["addr"]]
+        address = {"local": f"{HOST}.local", "ip": "dev.example.com", "literal": "10.0.0.1"}[var["addr"]]
         cli = sim.client(address, 6053, "pw", **kw)
         cbs: list[tuple[Any, ...]] = []   # (seq, t, name, phase, arg)
 
@@ -156,10 +159,10 @@ def run_history(case: dict[str, Any]) -> dict[str, Any]:
 
         name_via = var.get("name_via", "ctor")
         rl = ReconnectLogic(client=cli, on_connect=mk("on_connect"), on_disconnect=mk("on_disconnect"), on_connect_error=mk("on_connect_error"),
-                            name="" if name_via == "empty" else None if var["addr"] == "local" or name_via == "attr" else "devold" if name_via == "rename" else "dev")
+                            name="" if name_via == "empty" else None if var["addr"] == "local" or name_via == "attr" else "devold" if name_via == "rename" else HOST)
         if name_via == "attr" and var["addr"] != "local":
             # the application learns the device name after constructing the manager (an entry configured by IP address) and assigns it
-            rl.name = "dev"
+            rl.name = HOST
         harness: list[tuple[Any, ...]] = []   # (seq, t, what, extra)
         calls: list[Any] = []
         skipped = 0
@@ -181,7 +184,7 @@ def run_history(case: dict[str, Any]) -> dict[str, Any]:
         for step in hist:
             op = step[0]
             if op == "rename":
-                rl.name = "dev"
+                rl.name = HOST
             elif op == "world":
                 apply_world(step[1])
             elif op == "start":
@@ -215,7 +218,7 @@ def run_history(case: dict[str, Any]) -> dict[str, Any]:
                 else:
                     sim.run_for(dt)
             elif op == "mdns":
-                recs = records(step[1], "dev")
+                recs = records(step[1], HOST)
                 at = sim.clock
                 if len(step) > 2 and step[2] == "at-timer":
                     w = retry_timer()
@@ -591,6 +594,10 @@ VARIANTS += [{"addr": a, "noise": n, "zc": z, "slow_cb": 0.0, "name_via": "attr"
 VARIANTS += [{"addr": a, "noise": False, "zc": z, "slow_cb": 0.0, "name_via": "rename"} for a in ("ip", "literal") for z in ("library", "supplied")]
 # (no name given, spelled as the empty string instead of None: the name still comes from the .local host name)
 VARIANTS += [{"addr": "local", "noise": n, "zc": z, "slow_cb": 0.0, "name_via": "empty"} for n in (False, True) for z in ("library", "supplied")]
+# node names with an underscore (ESPHome allowed them for years; python-zeroconf resolves them): the name still comes from the host name
+VARIANTS += [{"addr": "local", "noise": n, "zc": z, "slow_cb": 0.0, "host": "living_room"} for n in (False, True) for z in ("library", "supplied")]
+# firmware newer than the client (API 1.12) and much older (1.2): what the hello announces changes nothing for the manager
+VARIANTS += [{"addr": a, "noise": False, "zc": z, "slow_cb": 0.0, "api_minor": mi} for a in ("ip", "local") for z in ("library", "supplied") for mi in (12, 2)]
 VARIANTS += [{"addr": a, "noise": False, "zc": z, "slow_cb": 0.0, "cb_raises": cb} for a in ("ip", "local") for z in ("library", "supplied")
              for cb in ("on_connect",)]   # (a raising on_disconnect / on_connect_error hook ends the manager's retry loop on the pinned tree: the statement
 #                                          quantifies over outcomes, endings, mDNS events and start/stop calls, not over hooks that raise - observed, DESIGN §9, not judged)
